@@ -5,6 +5,9 @@ package tss
 import (
 	"bytes"
 
+	"github.com/decred/dcrd/dcrec/secp256k1/v4"
+	"github.com/ethereum/go-ethereum/crypto"
+
 	sdk "github.com/cosmos/cosmos-sdk/types"
 
 	vs "github.com/bandprotocol/chain/v3/vsupport"
@@ -114,6 +117,32 @@ func VerifC03Round() {
 			vs.Reach("corruptions-rejected", true)
 		}
 	}
+
+	// the challenge follows the fixed BAND-TSS format that destination contracts recompute:
+	// keccak("BAND-TSS-secp256k1-v0" ‖ 0x00 ‖ "challenge" ‖ 0x00 ‖ address(R)[20] ‖ (parity(Y)+25) ‖ Y.x[32] ‖ keccak(msg))
+	// (built here independently of pkg/tss helpers)
+	gotChallenge, cerr := HashChallenge(groupPubNonce, groupKey, msg)
+	vs.Assume(cerr == nil)
+	rKey, perr := secp256k1.ParsePubKey(groupPubNonce)
+	vs.Assert("nonce-parses", perr == nil)
+	yKey, perr2 := secp256k1.ParsePubKey(groupKey)
+	vs.Assert("key-parses", perr2 == nil)
+	pad32 := func(b []byte) []byte {
+		out := make([]byte, 32)
+		copy(out[32-len(b):], b)
+		return out
+	}
+	rAddr := crypto.Keccak256(pad32(rKey.X().Bytes()), pad32(rKey.Y().Bytes()))[12:]
+	var doc []byte
+	doc = append(doc, []byte("BAND-TSS-secp256k1-v0")...)
+	doc = append(doc, 0)
+	doc = append(doc, []byte("challenge")...)
+	doc = append(doc, 0)
+	doc = append(doc, rAddr...)
+	doc = append(doc, groupKey[0]+25)
+	doc = append(doc, pad32(yKey.X().Bytes())...)
+	doc = append(doc, crypto.Keccak256(msg)...)
+	vs.Assert("challenge-format", bytes.Equal(gotChallenge, crypto.Keccak256(doc)))
 
 	// aggregation: the combined signature verifies under the group key for exactly this message
 	sig, err := CombineSignatures(sigs...)
